@@ -43,12 +43,14 @@ Proof. unfold of_kind. rewrite filter_In, kind_eqb_eq. tauto. Qed.
 Lemma candidates_in s k f rs :
   candidates s k f = inl rs -> forall r, In r rs -> In r (s_res s) /\ r_kind r = k.
 Proof.
-  destruct f as [|i|o|u]; cbn.
+  destruct f as [|i|o|u|l0|u o]; cbn.
   - intros [= <-] r. apply of_kind_in.
   - destruct (lookup s k i) as [r0|] eqn:E; [|discriminate]. intros [= <-] r [<-|[]].
     apply lookup_some in E. tauto.
   - intros [= <-] r Hin. apply filter_In in Hin as [Hin _]. apply of_kind_in; exact Hin.
   - destruct k; intros [= <-] r Hin; apply filter_In in Hin as [Hin _]; apply of_kind_in; exact Hin.
+  - intros [= <-] r Hin. apply filter_In in Hin as [Hin _]. apply of_kind_in; exact Hin.
+  - intros [= <-] r Hin. apply filter_In in Hin as [Hin _]. apply of_kind_in; exact Hin.
 Qed.
 
 Lemma authz_filter_sound c rs l :
